@@ -294,7 +294,7 @@ def gen_pipe_random(rng, n):
             continue
         w = rng.choice("aabnc")
         if w not in have:
-            ops.append(f"init {w} {rng.choice([0, 1, 2, 3, 4, 5, 6, 6, 9])}")
+            ops.append(f"init {w} {rng.choice([0, 1, 2, 3, 4, 5, 6, 6, 9])}" + (f" {rng.choice([0, 1, 2])}" if w in "ab" and rng.random() < 0.5 else ""))
             have.add(w)
             continue
         r = rng.random()
@@ -332,7 +332,7 @@ def gen_files(rng):
     ops = [e, "subjects 0 " + " ".join(hx(n) for n in COMMON_SUBJECTS)]
     for _ in range(3):
         ops.append(f"filelog {rng.choice('wn')} {rng.randint(1, 3)} {rng.randint(1, 6)}")
-    ops += [f"writerinit {k}" for k in (0, 1, 2, 3)]
+    ops += [f"writerinit {k}" for k in (0, 1, 2, 3)] + [f"initfail {k}" for k in "snw"]
     ops += [f"levelname {l}" for l in range(8)] + ["strlevel " + hx(n) for n in LEVELS] + ["strlevel " + hx(n.lower()) for n in LEVELS]
     ops += ["strlevel " + hx(level_text(rng)) for _ in range(6)]
     return Case(ops, {"stream": "files-and-level-names"})
@@ -417,6 +417,7 @@ def oracle(case, lines):
         return l
     tid, ts = None, None
     level_of = {}
+    df_of = {}
     registry = {}
     for op in case.ops:
         t = op.split()
@@ -469,6 +470,12 @@ def oracle(case, lines):
             continue
         if t[0] == "init":
             level_of[t[1]] = int(t[2])
+            df_of[t[1]] = int(t[3]) if len(t) > 3 else 1
+            continue
+        if t[0] == "initfail":
+            l = nxt()
+            if l != "P initfail rc=ERR live=0 fds=0":
+                errs.append(f"{op}: init on a file name that cannot be opened: `{l}`, expected an error with nothing kept (live=0 fds=0)")
             continue
         if t[0] == "wfail":
             continue
@@ -565,7 +572,7 @@ def oracle(case, lines):
                             + (", writer reported a failure" if kv.get("werr", "0") != "0" else "") + ")")
             for line in got[:1]:
                 if want:
-                    full = prefix_of(level, ts[1], tid, subject) + msg_of(msg_len, shape) + b"\n"
+                    full = prefix_of(level, ts[df_of.get(which, 1)], tid, subject) + msg_of(msg_len, shape) + b"\n"
                     cap = noalloc_cap() if which == "n" else len(full) + 1
                     check_line_shape(line, cap, full, op, errs, tid)
             continue
@@ -616,7 +623,11 @@ def distribution(cases, c_out):
 
 
 # ------------------------------------------------------------------------------------------------ background channel under detsched
-BG_HARNESS = dict(name="logbg", flavour="asan", extra_srcs=[detsched.SRC], ldflags=detsched.LDFLAGS)
+BG_HARNESS = dict(name="logbg", flavour="asan", ldflags=detsched.LDFLAGS,
+                  # log_channel.c compiled again from /repo with its two queue operations as schedule points
+                  extra_srcs=[detsched.SRC,
+                              (os.path.join(cbuild.REPO, "source", "log_channel.c"),
+                               ["-include", os.path.join(cbuild.VERIF, "harness", "verif_logchan.h"), "-DUSE_SIMD_ENCODING"], "log_channel_sched")])
 
 
 def bg_run_lines(rng, n):
@@ -638,7 +649,7 @@ def bg_execute(exe, run_lines):
     res, todo = {}, list(run_lines)
     abnormal = 0
     while todo and abnormal < 8:      # a tree on which every run crashes must not cost a process start per run
-        rc, out, _ = core.run_stream([exe], "\n".join(todo) + "\n", 300,
+        rc, out, _ = core.run_stream([exe], "\n".join(todo) + "\n", 90,
                                      {"ASAN_OPTIONS": "detect_leaks=0:abort_on_error=0"})
         cur = None
         for l in out.splitlines():
@@ -662,7 +673,7 @@ def na_text(i, k):
     return (f"T{i} N{k} payload " + "".join(chr(97 + (i * 3 + k + j) % 26) for j in range(3 + (i * 11 + k * 5) % 60))).encode()
 
 
-_na_line = re.compile(rb"^\[(INFO|ERROR)\] \[[^\]\n]*\] \[([0-9a-f]*)\] \[aws-c-common\] - T(\d+) N(\d+) payload [a-z]*$")
+_na_line = re.compile(rb"^\[(INFO|ERROR)\] \[1970-01-01T00:00:01Z\] \[([0-9a-f]*)\] \[aws-c-common\] - T(\d+) N(\d+) payload [a-z]*$")
 
 
 def na_oracle(cfg, lines):
@@ -828,7 +839,9 @@ def bg_model_ops(lines):
     for l in lines:
         if l.startswith("O "):
             t = l.split()
-            if t[1] in ("sent", "destroy"):
+            if t[1] == "sent":
+                ops.append(f"ev {t[2]} returned"); exp.append(f"P sent {t[2]} {t[3]}")
+            elif t[1] == "destroy":
                 exp.append(f"P {t[1]} {t[2]} {t[3]}")
             elif t[1] == "write":
                 exp.append(f"P write {t[2]} {t[3]}")
@@ -848,6 +861,8 @@ def bg_model_ops(lines):
                 ops.append("ev c write")
             elif kind == "yield" and aux == "4":
                 ops.append("ev c destroy")
+            elif (kind == "yield" and aux == "8") or kind == "atomic":
+                pass        # schedule point inside the sink / at a queue operation (harness): no step of the channel protocol
             elif kind != "start":
                 ops.append(f"ev c unexpected-{kind}")
         elif th >= 2:
@@ -855,7 +870,7 @@ def bg_model_ops(lines):
                 ops.append(f"ev s{th - 2} send")
             elif kind in ("lock", "signal", "unlock"):
                 ops.append(f"ev s{th - 2} {kind}")
-            elif not (kind in ("start", "exit") or (kind == "yield" and aux == "1")):
+            elif not (kind in ("start", "exit", "atomic") or (kind == "yield" and aux in ("1", "8"))):
                 ops.append(f"ev s{th - 2} unexpected-{kind}")
         else:
             if kind == "yield" and aux == "5":
@@ -864,7 +879,7 @@ def bg_model_ops(lines):
                 ops.append(f"ev k {kind}")
             elif cleaning and kind == "join" and obj == "t1":
                 cleaning = False; ops.append("ev k join")
-            elif cleaning:
+            elif cleaning and kind != "atomic":
                 ops.append(f"ev k unexpected-{kind}")
     return ops, exp
 
